@@ -46,6 +46,7 @@ class Ctx:
     def model(self, module, cfg=None, workers=16, timeout=900, env=None, expect_violation=False, heap='8g'):
         if self.only is not None:
             return None          # replay of recorded cases: the model runs are not repeated
+        timeout = max(timeout, 1800 if self.quick else 7200)
         r = tlc.model_check(module, cfg=cfg, workers=workers, timeout=timeout, env=env, heap=heap)
         self.states += r['distinct']
         self.transitions += r['generated']
@@ -69,6 +70,8 @@ class Ctx:
                 cases = [c for c in cases if c['id'] in self.only or any(str(o).startswith(str(c['id'])) for o in self.only)]
         for c in cases:
             self.case_index[c['id']] = (module, c)
+        if not self.quick:
+            timeout = max(timeout, 7200)          # the thorough tier may share the machine: a slow shard is not a verdict
         r = tlc.validate_cases(module, cases, shards=shards, timeout=timeout, heap=heap, extra_env=env, group=group, cfg=cfg)
         self.states += r['distinct']
         self.transitions += r['generated']
